@@ -129,6 +129,8 @@ struct World {
     fp_route_n: u32,
     /// this run routes some batches while another OS thread holds the ring's write lock
     lock_probe: bool,
+    /// (heartbeats queued before a batch, heartbeats between its two halves) when this run lets gossip pile up
+    backlog: Option<(usize, usize)>,
 }
 
 impl World {
@@ -363,8 +365,19 @@ impl World {
                 how = if self.nodes[n].fc_active { "GossipState::queue_deltas (router from GossipRouter::from_config)" } else { "GossipState::queue_deltas (router from GossipRouter::new)" };
                 let gs = self.nodes[n].gs.as_mut().expect("gossip state");
                 if !gs.is_selective() { problems.push((K_NOT_SELECTIVE, format!("GossipState of node {} with a partitioned+selective config reports is_selective() = false", me))); }
-                gs.queue_deltas(deltas.clone());
+                match self.backlog {
+                    Some((h1, h2)) if deltas.len() >= 2 && self.next_uid % 3 == 0 => {
+                        rep.probe("routed_behind_a_backlog_at_queue_capacity"); rep.fault("gossip_loop_stalled_queue_at_capacity");
+                        for _ in 0..h1 { gs.queue_heartbeat(); }
+                        let mid = deltas.len() / 2;
+                        gs.queue_deltas(deltas[..mid].to_vec());
+                        for _ in 0..h2 { gs.queue_heartbeat(); }
+                        gs.queue_deltas(deltas[mid..].to_vec());
+                    }
+                    _ => gs.queue_deltas(deltas.clone()),
+                }
                 let mut msgs = gs.drain_outbound();
+                msgs.retain(|m| !(m.target.is_none() && matches!(m.message, GossipMessage::Heartbeat { .. })));
                 // queue order follows HashMap iteration inside the router; canonicalise before it can influence anything
                 msgs.sort_by_key(|m| m.target.map(|t| t.0 as u128).unwrap_or(u128::MAX));
                 for m in msgs {
@@ -540,11 +553,15 @@ impl Property for C19 {
         }
         let mut w = World {
             rf, vnodes, rf2, self_in_peers, keys, wrap_keys, nodes: Vec::new(), pool: pool.clone(), fresh: BTreeMap::new(), flights: Vec::new(),
-            upds: BTreeMap::new(), received: BTreeMap::new(), next_uid: 0, fp: 0, stop: false, seen_keys: BTreeSet::new(), fp_ring_n: 0, fp_route_n: 0, lock_probe: false,
+            upds: BTreeMap::new(), received: BTreeMap::new(), next_uid: 0, fp: 0, stop: false, seen_keys: BTreeSet::new(), fp_ring_n: 0, fp_route_n: 0, lock_probe: false, backlog: None,
         };
         w.fp = fnv(0, format!("{:?}|{}|{}|{}|{}|{:?}|{:?}", pool, rf, vnodes, rf2, self_in_peers, m0, w.keys).as_bytes());
         // one run in 48 (decided by the run's own content, no extra draw)
         w.lock_probe = w.fp % 48 == 0;
+        // one run in 24: the gossip loop is stalled, heartbeats pile up to the queue's capacity (10 000) and a batch is
+        // queued in two halves around the overflow; only heartbeats are old enough to be dropped, so every update still
+        // has to come out for exactly its owners
+        if (w.fp >> 8) % 24 == 0 { w.backlog = Some((9_975 + ((w.fp >> 16) % 26) as usize, ((w.fp >> 24) % 14) as usize)); }
         // ---- nodes: own ring in own join order, own router
         for (n, id) in pool.iter().enumerate() {
             src.begin();
